@@ -49,6 +49,11 @@ Ctx* g = nullptr;
 
 sigc::notifiable::func_destroy_notify callback_for(int k);
 
+// data id NULLD stands for the null data pointer (a legal registration: an object-less callback); the callback functions
+// used with it are instantiated per trackable name, because they cannot find their record through the data pointer
+constexpr int NULLD = 1;
+constexpr int MAXT = 4;
+
 Rec*
 rec_for(int t, int d)
 {
@@ -62,17 +67,16 @@ rec_for(int t, int d)
   return p.get();
 }
 
-template <int K>
+sigc::notifiable* data_for(int t, int d);
+sigc::notifiable::func_destroy_notify callback_for_data(int t, int d, int k);
+
 void
-user_callback(sigc::notifiable* data)
+run_body(int K, sigc::trackable* owner)
 {
-  Rec* r = static_cast<Rec*>(data);
-  g->delivered.push_back(std::to_string(r->d) + ":" + std::to_string(K));
   if (K >= (int)g->scripts.size())
     return;
   // copy what is needed first; the body only touches the trackable being notified
   const std::vector<BodyOp> body = g->scripts[K];
-  sigc::trackable* owner = r->owner;
   const auto named = g->name_of.find(owner);
   if (named == g->name_of.end())
     return; // delivered by an object the record was never registered on (reported through the log)
@@ -80,10 +84,30 @@ user_callback(sigc::notifiable* data)
   for (const auto& b : body)
   {
     if (b.kind == 'r')
-      owner->remove_destroy_notify_callback(rec_for(t, b.d));
+      owner->remove_destroy_notify_callback(data_for(t, b.d));
     else
-      owner->add_destroy_notify_callback(rec_for(t, b.d), callback_for(b.k));
+      owner->add_destroy_notify_callback(data_for(t, b.d), callback_for_data(t, b.d, b.k));
   }
+}
+
+template <int K>
+void
+user_callback(sigc::notifiable* data)
+{
+  Rec* r = static_cast<Rec*>(data);
+  g->delivered.push_back(std::to_string(r->d) + ":" + std::to_string(K));
+  run_body(K, r->owner);
+}
+
+// registrations with the null data pointer on trackable name T
+template <int K, int T>
+void
+user_callback_null(sigc::notifiable* data)
+{
+  g->delivered.push_back((data ? std::string("nonnull!") : std::to_string(NULLD)) + ":" + std::to_string(K));
+  auto it = g->objs.find(T);
+  if (it != g->objs.end())
+    run_body(K, it->second);
 }
 
 template <int... Ks>
@@ -92,6 +116,43 @@ pick(int k, std::integer_sequence<int, Ks...>)
 {
   static const sigc::notifiable::func_destroy_notify table[] = { &user_callback<Ks>... };
   return table[k];
+}
+
+template <int T, int... Ks>
+sigc::notifiable::func_destroy_notify
+pick_null(int k, std::integer_sequence<int, Ks...>)
+{
+  static const sigc::notifiable::func_destroy_notify table[] = { &user_callback_null<Ks, T>... };
+  return table[k];
+}
+
+sigc::notifiable*
+data_for(int t, int d)
+{
+  if (d == NULLD && t >= 0 && t < MAXT)
+    return nullptr;
+  return rec_for(t, d);
+}
+
+sigc::notifiable::func_destroy_notify
+callback_for_data(int t, int d, int k)
+{
+  if (d == NULLD && t >= 0 && t < MAXT)
+  {
+    auto ks = std::make_integer_sequence<int, MAXK>();
+    switch (t)
+    {
+    case 0:
+      return pick_null<0>(k, ks);
+    case 1:
+      return pick_null<1>(k, ks);
+    case 2:
+      return pick_null<2>(k, ks);
+    default:
+      return pick_null<3>(k, ks);
+    }
+  }
+  return callback_for(k);
 }
 
 sigc::notifiable::func_destroy_notify
@@ -205,12 +266,12 @@ exec(const Op& op)
   case 'A':
     if (!alive(a[0]))
       return false;
-    g->objs[a[0]]->add_destroy_notify_callback(rec_for(a[0], a[1]), callback_for(a[2]));
+    g->objs[a[0]]->add_destroy_notify_callback(data_for(a[0], a[1]), callback_for_data(a[0], a[1], a[2]));
     return true;
   case 'R':
     if (!alive(a[0]))
       return false;
-    g->objs[a[0]]->remove_destroy_notify_callback(rec_for(a[0], a[1]));
+    g->objs[a[0]]->remove_destroy_notify_callback(data_for(a[0], a[1]));
     return true;
   case 'C':
     if (!alive(a[0]) || alive(a[1]))
